@@ -1,5 +1,6 @@
 import Thanos.Common.Parse
 import Thanos.Model.CacheKeys
+import Thanos.Model.PostingsCodec
 /-
   Line-protocol driver of the `index` family (C11 C12 C13 C14 C16).
   One request per line, one answer per line; every line is self-contained.
@@ -15,6 +16,19 @@ import Thanos.Model.CacheKeys
     lms   <ms> <quote table>                  -> hex of LabelMatchersToString
     mkey  <type> <name> <value>               -> hex of the matchers-cache key
     mpair <type> <name> <value> <type> <name> <value>  -> eq | ne
+
+  C12 (postings codecs) — grammar
+    list   := "-" | <uint64>(,<uint64>)*
+    script := "-" | op(,op)*      op := n (Next) | s<x> (Seek(x)) | d (call Next until false)
+    trace  := one item per op: t<At> | f | D<count>/<sum mod 2^64>/<Σ (i+1)·v_i mod 2^64>[=v.v.v if count ≤ 40]
+    pc.enc <list>                              -> hex of the diff+uvarint payload | unsorted
+    pc.rt  dvs|dss <list> <chunk lengths> <script>
+                                               -> <payload length>/<fnv1a-32 of payload> <trace> e<0|1>   | unsorted | bad-chunks
+         (encode with the codec, decode, run the script; the chunk lengths are those of the
+          real snappy stream — third-party input — and must add up to the payload length)
+    chunk  := u<hex> | c<hex> (data chunk, uncompressed / compressed) | p<hex> (padding chunk: no data)
+    pc.dec dvs|dss <chunk>(|<chunk>)* <script>   -> <trace> e<0|1>
+         (decode the given payload, cut into the given chunks; malformed payloads allowed)
 -/
 open Thanos Thanos.Parse
 
@@ -113,9 +127,104 @@ def handleC13 : List String → Option String
     pure (eqne (matcherKey m1 == matcherKey m2))
   | _ => none
 
+/-! ### C12 -/
+section C12
+open Thanos.PostingsCodec
+
+def parseOp? (s : String) : Option Op :=
+  if s = "n" then some .next
+  else if s.startsWith "s" then (parseNat? (s.drop 1).toString).map .seek
+  else none
+
+/-- script items: `d` is kept apart from Next/Seek -/
+inductive Cmd where
+  | op (o : Op)
+  | drain
+
+def parseCmd? (s : String) : Option Cmd :=
+  if s = "d" then some .drain else (parseOp? s).map .op
+
+def fnv32 (bs : List Nat) : Nat :=
+  bs.foldl (fun h b => ((h ^^^ b) * 16777619) % 4294967296) 2166136261
+
+def showObs : Obs → String
+  | some v => s!"t{v}"
+  | none => "f"
+
+def wsum (vs : List Nat) : Nat :=
+  (vs.foldl (fun (acc : Nat × Nat) v => (acc.1 + 1, (acc.2 + (acc.1 + 1) * v) % M64)) (0, 0)).2
+
+def showDrain (vs : List Nat) : String :=
+  let head := s!"D{vs.length}/{vs.sum % M64}/{wsum vs}"
+  if vs.length ≤ 40 ∧ vs.length > 0 then head ++ "=" ++ ".".intercalate (vs.map toString) else head
+
+def runCmds {σ : Type} (I : IterOps σ) : List Cmd → σ → List String × σ
+  | [], s => ([], s)
+  | .op .next :: cs, s =>
+    let (r, s') := I.next s
+    let (t, s'') := runCmds I cs s'
+    (showObs (obs r (I.cur s')) :: t, s'')
+  | .op (.seek x) :: cs, s =>
+    let (r, s') := seekG I x s
+    let (t, s'') := runCmds I cs s'
+    (showObs (obs r (I.cur s')) :: t, s'')
+  | .drain :: cs, s =>
+    let (vs, s') := drainG I (I.size s + 1) s
+    let (t, s'') := runCmds I cs s'
+    (showDrain vs :: t, s'')
+
+/-- cut `bs` into pieces of the given lengths (which must add up) -/
+def cut : List Nat → List Nat → Option (List (List Nat))
+  | [], [] => some []
+  | [], _ :: _ => none
+  | n :: ns, bs => if bs.length < n then none else (cut ns (bs.drop n)).map (bs.take n :: ·)
+
+/-- `u<hex>` / `c<hex>`: a data chunk with that payload; `p<hex>`: a padding chunk (no data) -/
+def parseChunk? (s : String) : Option (List Nat) :=
+  if s.startsWith "p" then (strOfHex? (s.drop 1).toString).map fun _ => []
+  else if s.startsWith "u" ∨ s.startsWith "c" then strOfHex? (s.drop 1).toString
+  else none
+
+def runCodec (codec : String) (chunks : List (List Nat)) (cmds : List Cmd) : Option String :=
+  if codec = "dvs" then
+    let (t, s) := runCmds plainOps cmds ⟨0, chunks.flatten, false⟩
+    some (joinWith "," t ++ (if s.err then " e1" else " e0"))
+  else if codec = "dss" then
+    some (joinWith "," (runCmds streamOps cmds ⟨0, [], chunks⟩).1 ++ " e0")
+  else none
+
+def handleC12 : List String → Option String
+  | ["pc.enc", l] => do
+    let l ← parseNats? ',' l
+    match encode l with
+    | some bs => pure (hexOfStr bs)
+    | none => pure "unsorted"
+  | ["pc.rt", codec, l, lens, script] => do
+    let l ← parseNats? ',' l
+    let lens ← parseNats? ',' lens
+    let cmds ← (listOf ',' script).mapM parseCmd?
+    match encode l with
+    | none => pure "unsorted"
+    | some bs =>
+      match cut lens bs with
+      | none => pure "bad-chunks"
+      | some chunks => do
+        let t ← runCodec codec chunks cmds
+        pure s!"{bs.length}/{fnv32 bs} {t}"
+  | ["pc.dec", codec, chunks, script] => do
+    let chunks ← (splitChar '|' chunks).mapM parseChunk?
+    let cmds ← (listOf ',' script).mapM parseCmd?
+    runCodec codec chunks cmds
+  | _ => none
+end C12
+
 def handle (toks : List String) : String :=
-  match handleC13 toks with
-  | some r => r
-  | none => "bad-op"
+  match toks with
+  | [] => "bad-op"
+  | t :: _ =>
+    let r := if t.startsWith "pc." then handleC12 toks else handleC13 toks
+    match r with
+    | some r => r
+    | none => "bad-op"
 
 end Thanos.Driver.Index
